@@ -98,14 +98,36 @@ def parse_gantt(src):
         if m:
             section = m.group(1)
             continue
-        m = GANTT_LINE.match(ln)
-        if m:
-            e = m.groupdict()
+        e = parse_gantt_task(ln)
+        if e is not None:
             e['section'] = section
             entries.append(e)
         else:
             problems.append(ln)
     return entries, problems
+
+
+GANTT_TAGS = {'done', 'active', 'crit', 'milestone'}
+GANTT_DATE = re.compile(r'^\d\d\.\d\d\.\d{4} \d\d:\d\d$')
+
+
+def parse_gantt_task(ln):
+    """A task line as Mermaid reads it: title up to the first colon, then comma-separated metadata (blanks around the items
+    do not matter): any of the tags done / active / crit / milestone, then the id, the start and the end."""
+    m = re.match(r'^\s*([^:]*):(.*)$', ln)
+    if not m:
+        return None
+    items = [x.strip() for x in m.group(2).split(',')]
+    tags = []
+    while items and items[0] in GANTT_TAGS:
+        tags.append(items.pop(0))
+    if len(items) != 3:
+        return None
+    mi = re.match(r'^id_(-?\w+)$', items[0])
+    if not mi or not GANTT_DATE.match(items[1]) or not GANTT_DATE.match(items[2]):
+        return None
+    return {'name': m.group(1), 'state': 'milestone,' if 'milestone' in tags else '', 'tags': tuple(tags), 'id': mi.group(1),
+            'start': items[1], 'end': items[2]}
 
 
 def parse_network(src):
@@ -116,7 +138,8 @@ def parse_network(src):
         problems.append('missing header')
     for ln in lines[1:]:
         s = ln.strip()
-        if s.startswith('style '):
+        if s.startswith(('style ', 'classDef ', 'class ', 'linkStyle ', 'click ', '%%')):
+            # styling statements and comments are no edges (the statement counts edges only)
             styles += 1
             continue
 
